@@ -92,6 +92,9 @@ HARMLESS = [
     ('C08', 'sc3/base/clock.py', "        with cls._tick_cond:\n            cls._run_sched = False\n            cls._tick_cond.notify()\n        cls._thread.join()", "        with cls._tick_cond:\n            cls._tick_cond.notify_all()\n            cls._run_sched = False\n        cls._thread.join()", 'AppClock._stop: flag and notification exchanged inside the critical section'),
     ('C11', 'sc3/base/stream.py', "                clock = clock or self._clock\n                clock.play(self, quant)", "                where = clock or self._clock\n                where.play(self, quant)", 'local renamed in Routine.resume'),
     ('C16', 'sc3/synth/_engine.py', "            if block in self._freed[block.size]:\n                self._freed[block.size].remove(block)\n            if not self._freed[block.size]:\n                del self._freed[block.size]", "            blocks = self._freed[block.size]\n            if block in blocks:\n                blocks.remove(block)\n            if not blocks:\n                del self._freed[block.size]", 'local for the set in _remove_from_freed'),
+    ('C18', 'sc3/base/systemactions.py', "        for action in cls._actions.copy():\n            cls._do_action(action)\n\n    @classmethod\n    def _do_action", "        for action in list(cls._actions):\n            cls._do_action(action)\n\n    @classmethod\n    def _do_action", 'SystemAction.run: list() instead of copy() for the snapshot'),
+    ('C18', 'sc3/base/systemactions.py', "        cls._servers[server].update({action: (args, kwargs)})", "        cls._servers[server][action] = (args, kwargs)", 'ServerAction.add: item assignment instead of update'),
+    ('C18', 'sc3/base/model.py', "        except KeyError as e:\n            err = True", "        except KeyError as e:\n            err = False", 'unregister stays silent on a missing registration (not asked for by C18)'),
 ]
 
 BREAKING = [
@@ -196,6 +199,11 @@ BREAKING = [
     ('C16', 'sc3/synth/_engine.py', "                avail_block, addr - avail_block.start, False)[1]", "                avail_block, addr - avail_block.start, True)[1]", '_reserve marks the gap below the address as in use'),
     ('C16', 'sc3/synth/_engine.py', "            if not self._freed[block.size]:\n                del self._freed[block.size]", "            if self._freed[block.size]:\n                del self._freed[block.size]", 'free list of a size dropped while blocks remain in it'),
     ('C16', 'sc3/synth/_engine.py', "        self._array[pos] = ContiguousBlock(shifted_pos, size - pos)", "        self._array[pos] = ContiguousBlock(shifted_pos, size)", 'initial free block reaches beyond the partition'),
+    ('C18', 'sc3/base/systemactions.py', "        for action in cls._actions.copy():\n            cls._do_action(action)\n\n    @classmethod\n    def _do_action", "        for action in cls._actions:\n            cls._do_action(action)\n\n    @classmethod\n    def _do_action", 'SystemAction.run iterates the live registry'),
+    ('C18', 'sc3/base/systemactions.py', "        if action in cls._actions:  # May be removed by a previous action.", "        if True:", 'an action removed during the run is still looked up'),
+    ('C18', 'sc3/base/systemactions.py', "        if server is srv.Server.default and 'default' in cls._servers:", "        if 'default' in cls._servers:", "'default' server actions run for every server"),
+    ('C18', 'sc3/base/model.py', "                fn.value(action, obj, msg, listener, *args, **kwargs)", "                fn.value(action, obj, msg, *args, **kwargs)", 'notification without its listener'),
+    ('C18', 'sc3/base/model.py', "            elif listener is None:\n                del cls._registrations[obj][msg]", "            elif listener is None:\n                del cls._registrations[obj]", 'unregister(obj, msg) drops every message of the object'),
 ]
 
 
